@@ -277,6 +277,13 @@ impl<'a, T: Read + Write + Seek> PointCloudWriter<'a, T> {
     }
 
     fn validate_prototype(prototype: &[Record]) -> Result<()> {
+        // Each record name can be used only once
+        for (i, record) in prototype.iter().enumerate() {
+            if prototype[..i].iter().any(|p| p.name == record.name) {
+                Error::invalid("Each record name can be used only once in a prototype")?
+            }
+        }
+
         // Helpers to check and look up records
         let contains = |n: RecordName| prototype.iter().any(|p| p.name == n);
         let get = |n: RecordName| prototype.iter().find(|p| p.name == n);
